@@ -12,6 +12,7 @@ package main
 
 import (
 	"fmt"
+	"math"
 	"os"
 	"strings"
 
@@ -153,6 +154,26 @@ func admissible(s *Spec) bool {
 		}
 		if s.EMax != nil && s.Max == nil {
 			return false
+		}
+		for _, b := range []*int64{s.Min, s.Max} {
+			if b == nil {
+				continue
+			}
+			// a bound the field's type cannot hold is rejected by the compiler
+			switch s.Fmt {
+			case "i32":
+				if *b < math.MinInt32 || *b > math.MaxInt32 {
+					return false
+				}
+			case "u32":
+				if *b < 0 || *b > math.MaxUint32 {
+					return false
+				}
+			case "u64":
+				if *b < 0 {
+					return false
+				}
+			}
 		}
 		if s.Min != nil && s.Max != nil {
 			lo, hi := *s.Min, *s.Max
@@ -381,6 +402,10 @@ func diffSignature(s *Spec, k, dv, rv string) string {
 		} else if dv == "~" {
 			class = "invented"
 		}
+	}
+	if s.Arr && (s.Kind == "date" || s.Kind == "dec") && rv == "~" && (k == "min" || k == "max" || k == "emin" || k == "emax") {
+		// the rules of date / decimal items travel in the item's (j5.ext.v1.field), which the array annotation replaces
+		return "schema-diff:array:" + s.Kind + ":rules:dropped"
 	}
 	sig := "schema-diff:" + kindTag(s) + ":" + k + ":" + class
 	switch {
